@@ -200,6 +200,7 @@ func (x *g) genMethod(sv *spec.Service, j int, used map[string]bool) {
 	if len(x.chain) > 0 && m.Payload != nil && m.Payload.Type.Kind == spec.Object && x.chance(2, 3) {
 		m.Payload.Type.Attrs = append(m.Payload.Type.Attrs, &spec.Attr{Name: "chain_in", Type: &spec.Type{Kind: spec.Ref, Ref: x.chain[x.r.Intn(len(x.chain))]}})
 	}
+	x.unionInto(m, "payload") // union.go (Opts.Unions)
 	// ---- security (needs an object payload we own: inline)
 	if len(x.s.Schemes) > 0 {
 		switch {
@@ -282,6 +283,7 @@ func (x *g) genMethod(sv *spec.Service, j int, used map[string]bool) {
 	if len(x.solo) > 0 && m.Result != nil && m.Result.Type.Kind == spec.Object && x.chance(2, 3) {
 		m.Result.Type.Attrs = append(m.Result.Type.Attrs, &spec.Attr{Name: "solo_out", Type: &spec.Type{Kind: spec.Ref, Ref: x.solo[x.r.Intn(len(x.solo))]}})
 	}
+	x.unionInto(m, "result") // union.go (Opts.Unions)
 	// ---- errors
 	ne := 0
 	if x.o.Profile == "errors" {
